@@ -316,6 +316,11 @@ func (t *stdioClientTransport) readLoop() {
 		}
 	}()
 
+	// src is what the current decoder reads from: stdout, preceded by whatever earlier decoders had
+	// taken from it without consuming it.
+	var src io.Reader = bufio.NewReader(t.stdout)
+	t.decoder = json.NewDecoder(src)
+
 	for !t.closed.Load() {
 		var rawMessage json.RawMessage
 		if err := t.decoder.Decode(&rawMessage); err != nil {
@@ -324,11 +329,11 @@ func (t *stdioClientTransport) readLoop() {
 			}
 			t.logger.Errorf("Error reading message: %v", err)
 			// A decoding error is sticky: drop the rest of the offending line and go on with a fresh decoder.
-			rest := bufio.NewReader(io.MultiReader(t.decoder.Buffered(), t.stdout))
-			if _, rerr := rest.ReadString('\n'); rerr != nil {
+			src = io.MultiReader(t.decoder.Buffered(), src)
+			if rerr := skipLine(src); rerr != nil {
 				break
 			}
-			t.decoder = json.NewDecoder(rest)
+			t.decoder = json.NewDecoder(src)
 			continue
 		}
 
@@ -356,6 +361,19 @@ func (t *stdioClientTransport) readLoop() {
 	// The server's stdout has ended: no response can arrive any more, so pending requests must not wait for one.
 	if !t.closed.Load() {
 		t.cancel()
+	}
+}
+
+// skipLine reads r up to and including the next newline.
+func skipLine(r io.Reader) error {
+	var b [1]byte
+	for {
+		if _, err := io.ReadFull(r, b[:]); err != nil {
+			return err
+		}
+		if b[0] == '\n' {
+			return nil
+		}
 	}
 }
 
